@@ -127,17 +127,6 @@ func disagreeing(c []byte, sizeClass, base int, alg string) (size int64, dg stri
 	return size, dg, true
 }
 
-// clientForwardsPrefix: the one combination that is left out on the HTTP stacks.  ociclient.PushBlob
-// sends the content under Content-Length = desc.Size; net/http hands the server exactly that many
-// bytes and only then notices that the reader holds more, so the server has received a
-// self-consistent upload (the declared prefix under the prefix's sha256) and commits it while the
-// client reports "ContentLength=N with Body length M".  Reproduced on the unchanged tree and
-// reported as a finding (work/C01/finding_http_overlong_prefix.json); until it is decided the
-// routine run does not contain it.  Declared size 0 is refused by the client before anything is sent.
-func clientForwardsPrefix(stack int, c []byte, size int64, base int, alg string) bool {
-	return isHTTP(stack) && size > 0 && size < int64(len(c)) && base == dgPrefixOrPadded && alg == "sha256"
-}
-
 // followUps: reads of what a refused blob push declared, and of the content's own digest.
 func blobFollowUps(r *rand.Rand, repo, declared string, c []byte) []memsim.Op {
 	ops := []memsim.Op{{Kind: "GetBlob", Repo: repo, Digest: declared}}
@@ -239,15 +228,22 @@ func genDisagree(out *hx.Out, rnd *rand.Rand, scale int) {
 							continue
 						}
 					}
-					if clientForwardsPrefix(stack, c, size, base, alg) {
-						alg = "sha512"
-						size, dg, _ = disagreeing(c, sc, base, alg)
+					// the content arrives as a reader of known length (bytes.Reader) or of unknown length;
+					// the self-consistent prefix (content longer than the declared size, digest of the
+					// declared prefix: what a transport that stops at Content-Length delivers) both ways
+					for _, opaque := range []bool{false, true} {
+						if base != dgPrefixOrPadded && opaque != ((sc+base+stack+round)%2 == 0) {
+							continue
+						}
+						ops := []memsim.Op{valid([]byte("present"))}
+						ops = append(ops, memsim.Op{Kind: "PushBlob", Repo: repo, Desc: &memsim.Desc{Media: octet, Digest: dg, Size: size}, Content: c, Opaque: opaque})
+						ops = append(ops, blobFollowUps(rnd, repo, dg, c)...)
+						ops = append(ops, valid(c), memsim.Op{Kind: "GetBlob", Repo: repo, Digest: memsim.Sha(c)})
+						emit(stack, ops, "PushBlob", sizeClassNames[sc]+"/"+digestBaseNames[base]+"/"+alg[:6])
+						if opaque {
+							out.Count("disagree:PushBlob:reader-of-unknown-length")
+						}
 					}
-					ops := []memsim.Op{valid([]byte("present"))}
-					ops = append(ops, memsim.Op{Kind: "PushBlob", Repo: repo, Desc: &memsim.Desc{Media: octet, Digest: dg, Size: size}, Content: c})
-					ops = append(ops, blobFollowUps(rnd, repo, dg, c)...)
-					ops = append(ops, valid(c), memsim.Op{Kind: "GetBlob", Repo: repo, Digest: memsim.Sha(c)})
-					emit(stack, ops, "PushBlob", sizeClassNames[sc]+"/"+digestBaseNames[base]+"/"+alg[:6])
 				}
 			}
 			// Commit, single POST, manifest PUT by digest: wrong-digest classes
